@@ -40,6 +40,7 @@ def run(chk, repo, tier):
         raise AnalysisError('Plane.rescale: no returning path')
     scale = S('scale')
     oka = okb_amp = okb_opd = okc_order = okc_bin = okc_int = okd = True
+    smooth_orders = set()
     n_ps = n_amp = n_opd = n_mask = 0
     copy_ok = True
     opd_masked = False
@@ -84,6 +85,8 @@ def run(chk, repo, tier):
             good = len(rs) == 1 and v == Poly.atom(rs[0]) / scale and bound_of(rs[0]).get('scale') == scale and \
                 bound_of(rs[0]).get('unitary') == FALSE
             okb_amp = okb_amp and good
+            if len(rs) == 1:
+                smooth_orders.add(nf.vkey(bound_of(rs[0]).get('order')))
         if 'opd' in last:
             n_opd += 1
             v = last['opd'][-1].data['value']
@@ -95,6 +98,8 @@ def run(chk, repo, tier):
                 good = False
                 opd_masked = True
             okb_opd = okb_opd and good
+            if a is not None and is_app(a, 'call:util.rescale'):
+                smooth_orders.add(nf.vkey(bound_of(a).get('order')))
         if '_mask' in last:
             n_mask += 1
             evs = last['_mask']
@@ -144,6 +149,11 @@ def run(chk, repo, tier):
     chk.ob('C17-b', 'D-factor', f.key, 'amplitude = rescale(amplitude, scale)/scale', okb_amp and n_amp > 0, '', f.loc())
     chk.ob('C17-b', 'D-factor', f.key, 'OPD = rescale(opd, scale) without extra factor', okb_opd and n_opd > 0,
            'the OPD is interpolated with a mask: the result is multiplied by the (linearly interpolated) mask' if opd_masked else '', f.loc())
+    # amplitude and OPD are smooth maps: one interpolation order for both, whatever the scale factor (a lower order for
+    # shrinking changes the values off the old sample positions by orders of magnitude more than the spline does)
+    chk.ob('C17-b', 'N-sibling', f.key, 'amplitude and OPD are interpolated with one spline order on every path, independent of the scale',
+           (len(smooth_orders) == 1) if smooth_orders else None,
+           f'orders handed to util.rescale: {sorted(str(o) for o in smooth_orders)}'[:200], f.loc())
     chk.ob('C17-c', 'N-sibling', f.key, 'mask rescaled with order 0 in the monolithic and the segmented branch',
            okc_order and n_mask >= 2, f'{n_mask} mask branch(es)', f.loc())
     mask_rescale_siblings(chk, repo, 'C17-c', rets)
